@@ -200,6 +200,7 @@ def run(spec, res):
         space = StateSpace(execution_deadline=now + per_path, model_check_timeout=per_path / 2,
                            search_root=search_root)
         S = SymFactory()
+        sx_plugin.reset_path_state()
         status = None
         with condition_parser([AnalysisKind.PEP316]), Patched(), COMPOSITE_TRACER, NoTracing(), \
                 StateSpaceContext(space):
